@@ -286,6 +286,62 @@ def run_kani_unit(uname, ucfg, tier, scratch, only=None):
     return out
 
 
+def run_native_unit(uname, ucfg, tier, scratch):
+    """backend "native": an exhaustive enumeration over a STATED FINITE DOMAIN, written as an
+    integration test against the real crate's public API and run natively (release build) in a
+    scratch copy. It is the bounded stand-in for code that neither verifier reaches (labelled
+    bounded, never counted as proved). The test prints `FOUND kind=<k> ...` per failing input and
+    `searched <n> ...` lines; obligations map kinds to names."""
+    t0 = time.time()
+    ws = os.path.join(scratch, "ws-" + uname)
+    test_src_path = os.path.join(VERIF, ucfg["test"])
+    cmd = ["cargo", "test", "--release", "--offline", "-p", ucfg["crate"], "--test",
+           os.path.splitext(os.path.basename(ucfg["dest"]))[0], "--", "--nocapture"]
+    out = {"unit": uname, "backend": "native", "obligations": [], "status": "ok", "reason": "", "functions": [],
+           "assumption_scan": [], "wall_s": 0.0, "cmd": " ".join(cmd), "tool": "cargo test --release (native enumeration)",
+           "solver_s": 0.0, "canary_failed": True, "native_found": {}}
+    try:
+        kinject.copy_workspace(REPO, ws)
+        dest = os.path.join(ws, ucfg["dest"])
+        os.makedirs(os.path.dirname(dest), exist_ok=True)
+        shutil.copy(test_src_path, dest)
+        env = dict(os.environ, CARGO_NET_OFFLINE="true")
+        pr = subprocess.run(cmd, cwd=ws, capture_output=True, text=True, timeout=ucfg.get("timeout", 900), env=env)
+        text = pr.stdout + pr.stderr
+    except Exception as e:
+        out["status"] = "undecided"
+        out["reason"] = f"native enumeration could not run: {e}"
+        out["wall_s"] = time.time() - t0
+        return out
+    found = [l for l in text.splitlines() if l.startswith("FOUND ")]
+    searched = [l for l in text.splitlines() if l.startswith("searched ")]
+    ran = re.search(r"test result: (ok|FAILED)\. (\d+) passed; (\d+) failed", text)
+    n_cases = sum(int(x) for l in searched for x in re.findall(r"\b(\d+)\b", l)[:1])
+    if not ran or not searched or n_cases == 0:
+        # compile error (API changed) or the enumeration did not report its size: vacuity guard
+        out["status"] = "undecided"
+        out["reason"] = "native enumeration did not run to completion: " + text[-600:]
+        out["wall_s"] = time.time() - t0
+        return out
+    for kind, oname in ucfg["obligations"].items():
+        hits = [l for l in found if f"kind={kind} " in l]
+        rec = {"name": f"{uname}:{oname}", "backend": "native", "kind": "bounded", "bound": ucfg.get("bound"),
+               "harness": ucfg["test"], "function": None, "time_s": time.time() - t0, "solver_s": 0.0,
+               "status": "failed" if hits else "discharged",
+               "reason": (hits[0][:600] if hits else ""), "checks": n_cases, "covers": [1, 1],
+               "detail": "\n".join(hits[:15]), "form": "native-exhaustive-enumeration"}
+        out["obligations"].append(rec)
+        if hits:
+            out["native_found"][rec["name"]] = hits[:15]
+    unknown = [l for l in found if not any(f"kind={k} " in l for k in ucfg["obligations"])]
+    if unknown:
+        out["status"] = "undecided"
+        out["reason"] = "enumeration reported a kind no obligation names: " + unknown[0][:200]
+    out["searched"] = searched
+    out["wall_s"] = time.time() - t0
+    return out
+
+
 def kani_playback(unit_out, ob):
     unit = unit_out["unit_json"]
     h = [x for x in unit["harnesses"] if x["name"] == ob["harness"]][0]
@@ -367,6 +423,8 @@ def decide(pid, tier, only_obligation=None):
                 ucfg = CONFIG["units"][uname]
                 if ucfg["backend"] == "verus":
                     jobs.append(ex.submit(run_verus_unit, uname, ucfg, tier, scratch))
+                elif ucfg["backend"] == "native":
+                    jobs.append(ex.submit(run_native_unit, uname, ucfg, tier, scratch))
                 else:
                     jobs.append(ex.submit(run_kani_unit, uname, ucfg, tier, scratch, uref.get("only")))
             for j in jobs:
@@ -403,6 +461,10 @@ def decide(pid, tier, only_obligation=None):
                     pb = {"test_src": None, "native_output": f"playback failed: {e}", "reproduced": False}
             elif ob["backend"] == "verus":
                 pb = native_search(ob["_unit"]["unit"], CONFIG["units"][ob["_unit"]["unit"]], scratch)
+            elif ob["backend"] == "native":
+                hits = ob["_unit"].get("native_found", {}).get(ob["name"], [])
+                pb = {"test_src": f"// failing inputs found by {ob['harness']} on the real crate:\n" + "\n".join("// " + l for l in hits),
+                      "native_output": "\n".join(hits), "reproduced": True}
             path = write_replay(pid, ob, ob["_unit"], pb)
             violations.append((ob, path, pb))
         ev = build_evidence(pid, pcfg, tier, unit_outs, obligations, violations, known_hits, time.time() - t0)
